@@ -37,6 +37,8 @@ pub fn opcode_names() -> Vec<String> {
 
 fn run(sh: &mut Shard) {
     let tier = sh.cfg.tier;
+    // size ladders across the operand-width boundaries, with the model as value oracle
+    crate::ladders::run_family(sh, "semantics", None, false);
     let names = opcode_names();
     let mut ophits = vec![0u64; names.len()];
     for (text, _) in corpus() {
@@ -49,6 +51,18 @@ fn run(sh: &mut Shard) {
         if let Some(r) = differential_text(sh, "semantics", &text, None, RunOpts { budget: Some(50_000_000), ledger: true, trace: false, render: true }) {
             if !matches!(r.model.end, End::Unspec(_) | End::Diverge) {
                 sh.nontrivial(&text);
+            }
+        }
+    }
+    for prog in slices::block_function_programs() {
+        if !sh.mine() {
+            continue;
+        }
+        sh.begin(&|| printer::program(&prog));
+        sh.count("slice:directed-block-functions");
+        if let Some(r) = differential(sh, "semantics", &prog, opts()) {
+            if !matches!(r.model.end, End::Unspec(_) | End::Diverge) {
+                sh.nontrivial(&printer::program(&prog));
             }
         }
     }
